@@ -167,6 +167,9 @@ func genExcProgram(t *zsim.Tape) *xProgram {
 	p := &xProgram{}
 	g.prog = p
 	nm := 1 + t.Draw(3)
+	// exception classes of different modules are sometimes named alike up to letter case (two
+	// libraries naming an error type after the same acronym): handlers match the exact name
+	latin := t.Draw(3) == 2
 	// modules are generated leaf-first so that calls only go to already generated code
 	for i := nm - 1; i >= 0; i-- {
 		m := &xModule{Name: xModNames[i]}
@@ -196,8 +199,11 @@ func genExcProgram(t *zsim.Tape) *xProgram {
 			return fs, cs
 		}
 		// optionally a custom exception class and/or an ordinary class
-		if t.Draw(3) == 0 {
+		if t.Draw(3) == 0 || latin {
 			c := &xClass{Name: fmt.Sprintf("错%d", i), Module: m.Name, IsExc: true}
+			if latin {
+				c.Name = []string{"HttpError", "HTTPError", "httpError"}[i]
+			}
 			m.Classes = append(m.Classes, c)
 			g.classes = append(g.classes, c)
 		}
@@ -268,10 +274,8 @@ func (g *xGen) catches(b *xBody, fs []*xBody, cs []*xClass) {
 		case 1:
 			cls = "探针异常"
 		case 2:
-			for _, c := range cs {
-				if c.IsExc {
-					cls = c.Name
-				}
+			if ecs := excClassesOf(cs); len(ecs) > 0 {
+				cls = ecs[g.t.Draw(len(ecs))]
 			}
 		}
 		if used[cls] {
@@ -287,6 +291,16 @@ func (g *xGen) catches(b *xBody, fs []*xBody, cs []*xClass) {
 		}
 		b.Catches = append(b.Catches, c)
 	}
+}
+
+func excClassesOf(cs []*xClass) []string {
+	var out []string
+	for _, c := range cs {
+		if c.IsExc {
+			out = append(out, c.Name)
+		}
+	}
+	return out
 }
 
 var xPool = []string{"甲", "乙", "丙", "丁"}
@@ -466,10 +480,8 @@ func (g *xGen) stmtsIn(b *xBody, fs []*xBody, cs []*xClass, n int, depth int, to
 		case k == 11:
 			cls := "异常"
 			if g.t.Draw(3) == 0 {
-				for _, c := range cs {
-					if c.IsExc {
-						cls = c.Name
-					}
+				if ecs := excClassesOf(cs); len(ecs) > 0 {
+					cls = ecs[g.t.Draw(len(ecs))]
 				}
 			}
 			// a raise is usually conditional so that the code after it is reachable in other runs
